@@ -102,9 +102,48 @@ def record(rep, r):
         rep.violation(f"diff:{d['how']}:{v}", f"{d}\nprogram:\n{r.get('src', '')[:1200]}", r["case"])
 
 
+# fixed programs run in every tier for every version: constructs whose code generation differs per version
+EXTRA = {
+    "bool-ops": ("for! [True, False], a =>\n    for! [True, False], b =>\n        print!(a, b, (a && b), (a || b), (a ^^ b), (a and b), (a or b))\n",
+                 "for a in [True, False]:\n    for b in [True, False]:\n        print(a, b, (a & b), (a | b), (a ^ b), (a and b), (a or b))\n"),
+    "kw-method": ('s = "a,b,c,d"\nprint!(s.split(",", maxsplit:=2), s.split(","))\nprint!(1, 2, sep:="-", end:="!\\n")\n',
+                  's = "a,b,c,d"\nprint(s.split(",", maxsplit=2), s.split(","))\nprint(1, 2, sep="-", end="!\\n")\n'),
+    "closure": ("mk(k: Int) =\n    (x: Int) -> x + k\ng = mk 5\nprint!(g(1), g(10))\n", "def mk(k):\n    return lambda x: x + k\ng = mk(5)\nprint(g(1), g(10))\n"),
+    "if-no-else": ("for! 0..<4, i =>\n    r = if i > 1, do i * 10\n    print!(i, r)\n", "for i in range(4):\n    r = i * 10 if i > 1 else None\n    print(i, r)\n"),
+    "arith-ops": ("for! [7, 8], a =>\n    print!(a // 2, a % 3, a ** 2, a / 2, a - 10, a * 3, a << 0 == a)\n" if False else
+                  "for! [7, 8], a =>\n    print!(a // 2, a % 3, a ** 2, a / 2, a - 10, a * 3)\n",
+                  "for a in [7, 8]:\n    print(a // 2, a % 3, a ** 2, a / 2, a - 10, a * 3)\n"),
+    "compare-chain": ("for! [1, 5], a =>\n    print!(a < 3, a <= 5, a == 5, a != 1, a > 1, a >= 5, not a == 1)\n",
+                      "for a in [1, 5]:\n    print(a < 3, a <= 5, a == 5, a != 1, a > 1, a >= 5, not a == 1)\n"),
+}
+
+
+def run_extra(ctx, name, v):
+    d = os.path.join(ctx.scratch, f"extra_{name}_{v}")
+    os.makedirs(d, exist_ok=True)
+    erg_src, py_src = EXTRA[name]
+    er, py = os.path.join(d, "p.er"), os.path.join(d, "p_ref.py")
+    open(er, "w").write('print!("' + frag.SENTINEL + '")\n' + erg_src)
+    open(py, "w").write('print("' + frag.SENTINEL + '")\n' + py_src)
+    P = common.PY_VERSIONS[v]
+    ref = fragrun.outcome(fragrun.py_run(ctx, py, python=P))
+    pr = ctx.run([ctx.erg, "--py-command", P, "run", er], cwd=d, timeout=180)
+    got = fragrun.outcome(pr)
+    return name, v, ref, got, pr
+
+
 def run(ctx, rep):
     n = ctx.n(24, 1500)
     cases = [{"seed": f"C13:{ctx.seed}:{i}", "version": v} for i in range(n) for v in VERSIONS]
+    for name, v, ref, got, pr in common.pmap(lambda nv: run_extra(ctx, *nv), [(nm, v) for nm in EXTRA for v in VERSIONS]):
+        if common.crash_signature(pr):
+            rep.inconc(f"compiler crash on extra {name}/{v}")
+        elif not got["started"] and got["exc"] is None and fragrun.compile_rejected(pr):
+            rep.declined += 1
+        elif not fragrun.same_outcome(got, ref):
+            rep.violation(f"extra:{name}:{v}", f"fixed program {name} under {v}: {describe(got, ref)}", {"extra": name, "version": v})
+        else:
+            rep.ok(("extra", name, v))
     for r in common.pmap(lambda c: run_one(ctx, c), cases):
         record(rep, r)
     rep.programs = rep.evaluations
@@ -114,4 +153,9 @@ def run(ctx, rep):
 
 
 def replay(ctx, rep, case):
+    if "extra" in case:
+        name, v, ref, got, pr = run_extra(ctx, case["extra"], case["version"])
+        if not fragrun.same_outcome(got, ref):
+            rep.violation(f"extra:{name}:{v}", "replayed", case)
+        return
     record(rep, run_one(ctx, case))
